@@ -386,13 +386,30 @@ sys_prop(
     "every per-extension outcome (85 shapes x 2 default_value behaviours, bound in the statement); for "
     "EVERY extension list the first extension whose file can be read and decoded wins with the loader's "
     "result, otherwise default_value receives an error that is one of the attempts' errors of maximal class; "
-    "the empty list goes to default_value with NoDefaultValue.  Error ids/wrapping, FileContent variants, "
+    "the empty list goes to default_value with NoDefaultValue; the built-in loaders have the modelled shape, "
+    "and in the model ParseLoader's answer does not depend on Unicode white space around the content, refuses "
+    "ill-formed UTF-8 and stays within i64, StringLoader keeps the bytes of exactly the well-formed strings.  "
+    "Error ids/wrapping, FileContent variants, "
     "retry after repair are checked by the correspondence (traces of reads and loader calls compared verbatim).",
-    ["Proofs/Load.v", "Tie/Error.v", "Tie/LoadFromSource.v", "Tie/Dirs.v", "Props/C03.v"], ["Props/C03.vo"],
+    ["Proofs/Load.v", "Proofs/Utf8.v", "Proofs/Loaders.v", "Tie/Error.v", "Tie/LoadFromSource.v", "Tie/Dirs.v", "Tie/Loaders.v",
+     "Props/C03.v"], ["Props/C03.vo"],
     ["C03_code_or_is_model_or", "C03_code_error_conversions_keep_the_class", "C03_code_load_error_names_the_asked_id", "C03_or_prefers_the_higher_class",
      "C03_code_load_from_source_is_model_up_to_3_extensions", "C03_first_readable_decodable_extension_wins",
-     "C03_all_fail_highest_class_error_goes_to_default", "C03_empty_extension_list_goes_to_default", "C03_code_default_extension_list"],
-    ["Error", "Asset", "Key", "Flags", "Dirs"], [], mode="cold")
+     "C03_all_fail_highest_class_error_goes_to_default", "C03_empty_extension_list_goes_to_default", "C03_code_default_extension_list",
+     "C03_code_builtin_loaders_as_modelled", "C03_parse_loader_ignores_surrounding_whitespace",
+     "C03_trim_removes_exactly_the_surrounding_whitespace", "C03_parse_loader_rejects_ill_formed_utf8",
+     "C03_parse_loader_stays_in_range", "C03_string_loader_keeps_the_bytes"],
+    ["Error", "Asset", "Key", "Flags", "Dirs", "Loaders"], ["loader-depends-on-delivery"], mode="cold",
+    extra_engines=[("loaddiff", [])])
+PROPS["C03"]["model_files"] = PROPS["C03"]["model_files"] + ["Ref/Utf8.v", "Ref/Loaders.v", "Corr/LoadCheck.v"]
+PROPS["C03"]["model_targets"] = PROPS["C03"]["model_targets"] + ["Corr/LoadCheck.vo"]
+PROPS["C03"]["rule"] = PROPS["C03"]["rule"] + (
+    "  loaddiff: the crate's ParseLoader (as i64, also through LoadFrom and through a cache), StringLoader "
+    "(String, Box<str>, SharedString) and BytesLoader (Vec, Box, SharedBytes) on generated byte strings -- "
+    "numbers wrapped in every kind of Unicode white space and in look-alikes that are not white space, signs, "
+    "leading zeros, the i64 bounds, non-ASCII digits, white space inside, ill-formed UTF-8, random bytes and "
+    "text -- as borrowed and as owned content; results compared with Ref/Loaders.v (parse_loader, valid) by "
+    "Corr/LoadCheck.v; borrowed / owned / LoadFrom / cache must agree (monitor).")
 
 sys_prop(
     "C05",
@@ -409,12 +426,13 @@ sys_prop(
     "the late-binding situation really goes stale (witness = known finding D8).  L3 (the system model runs "
     "such a pass under the implementation's order, which it checks legal) is tied by correspondence, not by a "
     "theorem connecting Ref.Sys to the abstract pass: partial.",
-    ["Proofs/Dfs.v", "Proofs/Pass.v", "Tie/Graph.v", "Tie/Answers.v", "Tie/Records.v", "Tie/Paths.v", "Props/C05.v"],
+    ["Proofs/Dfs.v", "Proofs/Pass.v", "Tie/Graph.v", "Tie/Answers.v", "Tie/Records.v", "Tie/Paths.v", "Proofs/SysGraph.v", "Props/C05.v"],
     ["Props/C05.vo"],
     ["C05_pass_visits_exactly_the_affected_once", "C05_dependencies_first",
      "C05_code_follows_the_dfs_and_drains_messages_first", "C05_pass_restores_consistency",
      "C05_late_binding_goes_stale", "C05_recording_as_modelled",
-     "C05_code_pass_order_is_one_reversed_post_order", "C05_code_events_reach_the_pass"],
+     "C05_code_pass_order_is_one_reversed_post_order", "C05_code_events_reach_the_pass",
+     "C05_reload_relearns_dependencies"],
     ["Deps", "HotReloading", "Records", "Anycache", "Asset", "Paths"], ["late-bound-stale", "stale-after-pass"], mode="hot",
     assumptions=["I1: a change counts as notified once the reloader has dequeued the event (settle barrier)",
                  "I2/I3: dependencies are those of the load that produced the cached value; a get_cached that "
@@ -431,17 +449,20 @@ sys_prop(
     "leaves the entry as it was or replaces it with reload id + 1 and the flag raised; a pass visits each "
     "affected asset exactly once; a watcher answers true exactly when the id grew since it last asked and "
     "remembers; under a guard value and id are pinned together (write script accepted by the lock "
-    "discipline), so what is read after a reported reload is at least that new.  `only if an entry it "
-    "recorded was notified` and `never re-reads the source on its own` are enforced by the correspondence "
-    "(visited set = model's reachable set; I/O traces equal).",
+    "discipline), so what is read after a reported reload is at least that new; in every reachable state "
+    "the two directions of the dependency graph agree, and every asset of a pass the model accepts depends, "
+    "transitively through the dependencies its latest successful load recorded, on an entry reported changed.  "
+    "That the implementation's pass is such a pass and `never re-reads the source on its own` are enforced by "
+    "the correspondence (visited set = model's reachable set; I/O traces equal).",
     ["Proofs/SysGrows.v", "Proofs/SysFrame.v", "Proofs/SysStatic.v", "Proofs/SysMap.v", "Proofs/SysReload.v",
      "Proofs/Dfs.v", "Proofs/RwProof.v", "Proofs/RwStep.v", "Proofs/RwPin.v", "Tie/Entry.v", "Tie/CallGraph.v",
-     "Tie/Graph.v", "Tie/Paths.v", "Props/C06.v"],
+     "Tie/Graph.v", "Tie/Paths.v", "Proofs/SysGraph.v", "Props/C06.v"],
     ["Props/C06.vo"],
     ["C06_loads_leave_reloader_state", "C06_reload_id_moves_only_in_a_pass", "C06_reload_bumps_id_by_one",
      "C06_each_affected_asset_once", "C06_watcher_reports_growth_once",
      "C06_value_read_after_a_reported_reload_is_as_new", "C06_code_forgets_dropped_dependencies", "C06_code_visits_each_asset_once",
-     "C06_code_watcher_starts_at_the_current_id", "C06_code_pass_bookkeeping"],
+     "C06_code_watcher_starts_at_the_current_id", "C06_code_pass_bookkeeping",
+     "C06_a_pass_reloads_only_dependents_of_changes", "C06_a_notified_pass_reloads_only_dependents_of_changes"],
     ["Entry", "CallGraph", "Deps", "Private", "Paths"],
     ["watcher", "guard-not-pinned", "changed-outside-hot_reload", "hot_reload-returned-early", "stale-after-pass"],
     mode="hot", extra_engines=[("rwdiff", [])])
@@ -503,12 +524,15 @@ sys_prop(
     "load_entry, load_owned_entry, load_and_record have the shapes the model assumes; in the model the nested "
     "load of a reloadable asset adds only that asset to the enclosing record, whatever runs under no_record "
     "or on a helper thread leaves the records exactly as they were (also after errors and panics), and at top "
-    "level nothing stays recorded.  `an edit reloads exactly the assets whose own load touched the entry, "
+    "level nothing stays recorded; registering an asset gives it exactly the recorded entries as dependencies "
+    "(older edges dropped, nobody else's moved) and in every reachable state the two directions of the graph "
+    "agree.  `an edit reloads exactly the assets whose own load touched the entry, "
     "plus dependents` is the correspondence of visited sets.  Not covered: two caches used from one load.",
-    ["Proofs/SysRecs.v", "Tie/Records.v", "Props/C14.v"], ["Props/C14.vo"],
+    ["Proofs/SysRecs.v", "Proofs/SysGraph.v", "Tie/Records.v", "Props/C14.v"], ["Props/C14.vo"],
     ["C14_code_records_as_modelled", "C14_nested_reloadable_load_records_only_the_asset",
      "C14_no_record_records_nothing", "C14_helper_thread_records_nothing",
-     "C14_top_level_load_leaves_no_record"],
+     "C14_top_level_load_leaves_no_record", "C14_insertion_attributes_exactly_the_recorded_entries",
+     "C14_graph_directions_agree_in_every_history"],
     ["Records", "Anycache", "Asset"], [], mode="hot")
 
 PROPS["C12"] = dict(
@@ -531,14 +555,14 @@ PROPS["C12"] = dict(
     gen=["Watcher", "Private"],
     model_files=["Ref/Watcher.v", "Corr/Common.v", "Corr/WatchCheck.v"],
     model_targets=["Corr/WatchCheck.vo"],
-    proof_files=["Proofs/Watcher.v", "Tie/Watcher.v", "Props/C12.v"],
+    proof_files=["Proofs/Watcher.v", "Tie/Watcher.v", "Tie/Graph.v", "Props/C12.v"],
     proof_targets=["Props/C12.vo"],
     props_module="Props.C12",
     theorems=["C12_code_id_of_path_is_model_on_the_sweep", "C12_code_event_table_is_model",
               "C12_code_every_event_reaches_the_table",
               "C12_id_of_path_inverts_path_of", "C12_root_is_the_empty_directory_entry",
               "C12_ids_and_paths_round_trip", "C12_outside_every_root_is_no_event",
-              "C12_events_name_the_entry", "C12_events_name_the_parent"],
+              "C12_events_name_the_entry", "C12_events_name_the_parent", "C12_code_path_of_entry"],
     engines=[("watchdiff", [])],
     rule="watchdiff: a real temporary tree (nested dirs, files with / without extension, unicode and spaces, "
          "two dots, hidden files, a dotted directory); notifications for the roots themselves, every entry, "
@@ -618,21 +642,22 @@ PROPS["C04"] = dict(
                "exactly like the specification for the tree the members describe, each child once; member "
                "order and directory members that other members imply do not matter; the printed "
                "register_dir / register_file / create / read_dir / exists of zip.rs and tar.rs have the "
-               "modelled shape.  FileSystem and Embedded, path parsing (IdBuilder, extension_of), zip / tar / "
+               "modelled shape, and the embed! macro fills its tables as printed (one row per file, sorted).  "
+               "FileSystem and Embedded, path parsing (IdBuilder, extension_of), zip / tar / "
                "flate2 decoding, SyncFile cloning and the OS are exercised by srcdiff against the "
                "specification (translation validation for that half), not modelled.",
     level_note="Trusted: Coq kernel+VM, the harness (tree generator, archive writers of the zip and tar crates, "
                "answer printers), the checkers in Corr/SrcCheck.v.  I5: archives with the same member path "
                "twice are not generated.",
-    gen=["Archive", "Private", "Deps"],
+    gen=["Archive", "Private", "Deps", "Embed"],
     model_files=["Ref/Tree.v", "Ref/Archive.v", "Corr/Common.v", "Corr/SrcCheck.v"],
     model_targets=["Corr/SrcCheck.vo"],
-    proof_files=["Proofs/Tree.v", "Proofs/Archive.v", "Tie/Archive.v", "Tie/Graph.v", "Props/C04.v"],
+    proof_files=["Proofs/Tree.v", "Proofs/Archive.v", "Tie/Archive.v", "Tie/Graph.v", "Tie/Embed.v", "Props/C04.v"],
     proof_targets=["Props/C04.vo"],
     props_module="Props.C04",
     theorems=["C04_listing_is_exactly_the_direct_children", "C04_listed_entries_are_readable_under_their_id",
               "C04_read_dir_answers_exactly_for_directories", "C04_code_builds_the_modelled_index",
-              "C04_code_reads_whole_members", "C04_code_path_of_entry", "C04_code_parent_id",
+              "C04_code_reads_whole_members", "C04_code_path_of_entry", "C04_code_parent_id", "C04_code_embed_macro",
               "C04_archive_index_answers_like_the_tree", "C04_member_order_is_irrelevant",
               "C04_implied_directory_members_are_redundant", "C04_archive_nonvacuous"],
     engines=[("srcdiff", [])],
